@@ -1043,9 +1043,60 @@ def judge_nested_reuse(spec, rec):
     return {'plan': spec['plan']}
 
 
+# ----------------------------------------------------------------------------------------------------
+# "fully correct" is said of every entry: credits one rounding step below 1 (0.7+0.2+0.1 = 1-2^-53, 1-2^-52) next to
+# full credits.  n additions of such numbers round back to exactly n, so a zeroing rule phrased through a sum or a mean
+# sees a perfect submission (a seeded change did that).  Each input matches exactly one answer: the assignment is unique.
+
+NEAR_ONE = [0.7 + 0.2 + 0.1, 1 - 2.0 ** -52, 0.9999999999999]
+N1_TOKENS = ['a', 'b', 'c', 'd', 'e', 'f']
+
+
+def items_near_one(tier):
+    for n in range(2, 7):
+        for near in NEAR_ONE:
+            for mask in range(1, 2 ** n):
+                if bin(mask).count('1') > 3:
+                    continue
+                for ordered in (True, False):
+                    yield {'n': n, 'near': near, 'mask': mask, 'ordered': ordered}
+
+
+def judge_near_one(spec, rec):
+    from mitxgraders import StringGrader
+    n, near, mask = spec['n'], spec['near'], spec['mask']
+    credits = [near if mask >> i & 1 else 1 for i in range(n)]
+    answers = [{'expect': N1_TOKENS[i], 'grade_decimal': credits[i]} for i in range(n)]
+    inputs = N1_TOKENS[:n]
+    if not spec['ordered']:
+        inputs = inputs[1:] + inputs[:1]
+    g = ListGrader(answers=answers, subgraders=StringGrader(), ordered=spec['ordered'], partial_credit=False)
+    kind, res = call_twice(g, lambda: None, None, list(inputs))
+    rec.calls(2)
+    if kind != 'ok':
+        raise res
+    got = res['input_list']
+    rec.nontrivial()
+    rec.cls('near-one/judged')
+    if not all(e['grade_decimal'] == 0 and e['ok'] is False for e in got):
+        raise Violation('partial-credit-off/not-zeroed',
+                        'partial_credit=False, item credits %r (so %d entr%s not fully correct), yet the entries are %r'
+                        % (credits, bin(mask).count('1'), 'y is' if bin(mask).count('1') == 1 else 'ies are',
+                           [(e['ok'], e['grade_decimal']) for e in got]), inputs=inputs)
+    # the same submission with partial credit on: each box keeps its own credit
+    g2 = ListGrader(answers=answers, subgraders=StringGrader(), ordered=spec['ordered'], partial_credit=True)
+    res2 = g2(None, list(inputs))
+    want = sorted(credits)
+    if sorted(e['grade_decimal'] for e in res2['input_list']) != want:
+        raise Violation('unordered/total-not-maximal' if not spec['ordered'] else 'ordered/entries-differ-from-subgrader',
+                        'item credits %r but entries %r' % (credits, res2['input_list']), inputs=inputs)
+    return {'credits': credits, 'entries': [(e['ok'], e['grade_decimal']) for e in got]}
+
+
 PARTS = [
     Part('nested-reuse', 'enum', judge_nested_reuse, items=items_nested_reuse, exhaustive=True, shards=4),
     Part('sibling-history', 'enum', judge_sibling_history, items=items_sibling_history, exhaustive=True),
+    Part('near-one', 'enum', judge_near_one, items=items_near_one, exhaustive=True),
     Part('enum2', 'enum', judge_enum, items=items_enum2, exhaustive=True),
     Part('enum3', 'enum', judge_enum, items=items_enum3, exhaustive=True),
     Part('enumlists', 'enum', judge_enum, items=items_enumlists, exhaustive=True),
